@@ -244,6 +244,83 @@ def r12_s(run, fx):
                 run.fail(rule, "stride:%s" % what, "the stride of the record array in %s is %s, not the %s read from the table" % (path, sym.show(sym.strip(st))[:60], what), b.loc(t))
 
 
+def _alloc_of(t):
+    t = sym.strip(t)
+    for _ in range(12):
+        if t[0] in ("ref", "deref"):
+            t = sym.strip(t[1])
+            continue
+        if t[0] == "call" and (t[4] or t[1] or "").endswith(("Deref::deref", "DerefMut::deref_mut", "::as_mut_slice", "::as_slice", "::as_mut")) and t[2]:
+            t = sym.strip(t[2][0])
+            continue
+        break
+    if t[0] == "call" and (t[4] or t[1] or "").endswith("vec::from_elem"):
+        return t[3]
+    return None
+
+
+def _in_cycle(b, bb):
+    seen, todo = set(), list(b.succs(bb))
+    while todo:
+        x = todo.pop()
+        if x == bb:
+            return True
+        if x in seen:
+            continue
+        seen.add(x)
+        todo.extend(b.succs(x))
+    return False
+
+
+def r12_f(run, fx, floors=True):
+    rule = "R12-F"
+    run.rule(rule, "a scratch buffer that is allocated before a loop, partially overwritten inside it (get_mut / index_mut / handed to a callee "
+                   "as &mut) and read as a whole in the same iteration (iter / to_vec / as_slice) is reset (fill / clear) inside the loop before "
+                   "those uses: the gvar per-region delta buffer must not carry deltas of the previous region into points the next region "
+                   "leaves untouched")
+    n = 0
+    for b in fx.bodies:
+        if b.exp:
+            continue
+        if not any((t["callee"].get("path") or "").endswith("vec::from_elem") for _, t in b.calls()):
+            continue
+        prov = sym.Prov(b)
+        uses = {}
+        for bi, t in b.calls():
+            if not t["args"] or not _in_cycle(b, bi):
+                continue
+            a = _alloc_of(prov.op(t["args"][0]))
+            if a is None or _in_cycle(b, a):
+                continue
+            last = (t["callee"].get("path") or "").split("::")[-1]
+            u = uses.setdefault(a, {"w": [], "r": [], "fill": []})
+            if last in ("fill", "clear"):
+                u["fill"].append(bi)
+            elif last in ("get_mut", "index_mut", "swap", "copy_from_slice", "clone_from_slice"):
+                u["w"].append(bi)
+            elif last in ("iter", "to_vec", "as_slice", "into_iter"):
+                u["r"].append(bi)
+            elif last in ("deref", "deref_mut", "len", "index", "get", "iter_mut", "push"):
+                pass
+            else:
+                ty = (t["args"][0].get("p") or {}).get("ty") or ""
+                if "&mut" in ty:
+                    u["w"].append(bi)
+        for a, u in sorted(uses.items()):
+            if not (u["w"] and u["r"]):
+                continue
+            n += 1
+            missing = [x for x in u["w"] + u["r"] if not any(b.dominates(f, x) for f in u["fill"])]
+            if not missing:
+                run.ok(rule, "%s: the buffer allocated at bb%d is reset inside the loop before it is written and read" % (b.path, a))
+            else:
+                run.fail(rule, "scratch:%s" % b.root, "%s: a buffer allocated before the loop is partially overwritten and then read as a whole in "
+                         "each iteration without being reset inside the loop: values of the previous iteration leak into the entries this "
+                         "iteration does not write" % b.path, b.loc(b.term(missing[0])))
+    if floors:
+        run.floor(rule, "per-iteration scratch buffers", n, 1)
+
+
 def check(run, fx, tier, floors=True):
     if floors or fx.body("<tables::variable_fonts::mvar::MvarTable<'_> as binary::read::ReadBinary>::read") is not None:
         r12_s(run, fx)
@@ -251,5 +328,6 @@ def check(run, fx, tier, floors=True):
     r12_t(run, fx, floors)
     r12_v(run, fx)
     r12_d(run, fx)
+    r12_f(run, fx, floors)
     recursion.run_rule(run, fx, "C01-a", lambda f: any("glyf::variation" in p or p.startswith("variations::") for p in f.local_paths),
                        floors_n=1 if floors else None)
